@@ -344,9 +344,28 @@ func (vx *Vaxis) cellPixelSize() (int, int) {
 	return w, h
 }
 
+// originImage is an image translated so that its bounds start at (0, 0)
+type originImage struct {
+	image.Image
+	min image.Point
+}
+
+func (o originImage) Bounds() image.Rectangle {
+	return o.Image.Bounds().Sub(o.min)
+}
+
+func (o originImage) At(x, y int) color.Color {
+	return o.Image.At(x+o.min.X, y+o.min.Y)
+}
+
 // Resizes an image to fit within the provided rectangle (as cells). If the
 // image already fits, it won't be resized
 func resizeImage(img image.Image, w int, h int, cellPixW int, cellPixH int) image.Image {
+	if min := img.Bounds().Min; min != (image.Point{}) {
+		// an image whose bounds do not start at the origin (a SubImage):
+		// everything below measures and reads it from (0, 0)
+		img = originImage{Image: img, min: min}
+	}
 	wPix := img.Bounds().Max.X
 	hPix := img.Bounds().Max.Y
 	// Looks complicated but we're just calculating the size of the
